@@ -1,37 +1,3 @@
-def _space_id():
-    from crosshair.statespace import context_statespace
-    return id(context_statespace())
-
-
-def _b64digit(v):
-    """character of base64 digit v"""
-    if not (0 <= v <= 63):
-        # never happens (v is 6 bits of the data by construction); for a symbolic v this is one cheap
-        # solver check, after which the range is a fact of the path and the inverse below is exact
-        raise AssertionError("base64 digit out of range")
-    o = _b64char(v)
-    if not lbytes._is_conc(o):
-        from crosshair.tracers import NoTracing
-        with NoTracing():
-            sid = _space_id()
-            for term in _b64_shapes(v.var):
-                _INV[term.get_id()] = (term, v.var, sid)
-    return chr(o)
-
-
-def _b64val(o):
-    """value of the base64 digit with character code o, -1 when o is not a base64 digit"""
-    if not lbytes._is_conc(o):
-        from crosshair.libimpl.builtinslib import SymbolicInt
-        from crosshair.tracers import NoTracing
-        with NoTracing():
-            ent = _INV.get(o.var.get_id()) if isinstance(o, SymbolicInt) else None
-            if ent is not None and ent[0].eq(o.var) and ent[2] == _space_id():
-                # produced by _b64digit on this very path, where 0 <= v <= 63 is established
-                return SymbolicInt(ent[1])
-    return lbytes.pw_map(o, _B64VAL, (0, -1))
-
-
 """C41 mail text codecs: SMTP xtext and IMAP4 modified UTF-7 round trips in RFC form.
 
 Engine E2.  xtext_encode / xtext_decode (smtp.py) and encoder / decoder / modified_base64 /
@@ -79,9 +45,9 @@ OUTSIDE = ["longer strings (both codecs work character by character; the only cr
 ASSUMPTIONS = ["the pure-Python ports of utf-16-be encoding, binascii.b2a_base64, the utf-7 codec and "
                "memoryview.cast('c') agree with CPython (differentially tested in selftest on every run, the "
                "count is in the evidence); LBytes/LBuf reproduce bytes/bytearray (lbytes.selftest)",
-               "inside the decoder port the value of a base64 digit produced by the encoder port on the same path "
-               "is taken from the term structure (B64VAL(B64CHAR(v)) = v for 0 <= v <= 63, also through the "
-               "'/' <-> ',' substitutions): proved by z3 for all integers in selftest on every run",
+               "inside the decoder port the value of a base64 digit produced by the encoder port is taken from the "
+               "term structure (B64VAL(B64CHAR(v)) = v if 0 <= v <= 63 else -1, also through the '/' <-> ',' "
+               "substitutions): proved by z3 for all integers in selftest on every run",
                "z3 runs with smt.arith.solver=2 for this property (performance setting only)"]
 EXPLANATION = ("lifted real codecs on symbolic text; C helpers replaced by validated arithmetic ports; "
                "character classes case-split into shards")
@@ -105,10 +71,9 @@ def _b64char(v):
 # '/' -> ',' -> '/' substitutions of modified_base64 / modified_unbase64, and has to compute
 # B64VAL(...) of it.  z3 needs ~40 s to see through six such nested case splits inside one query
 # (astral round trip), so _b64val recognises these two term shapes and returns
-# v directly (the encoder port has established 0 <= v <= 63 on the path before).  That B64VAL of
-# both shapes equals v for 0 <= v <= 63 is proved by z3 for all integers in selftest() on every run
-# (and evaluated on every value): the rewrite cannot change any result, it only removes redundant
-# case splits.
+# "v if 0 <= v <= 63 else -1" directly.  The equality of B64VAL(shape) with that term is proved by
+# z3 for ALL integers v in selftest() on every run (and evaluated on every value), so the rewrite
+# cannot change any result; it only removes redundant case splits.
 _SLASH2COMMA = [(47, 47, 0, 44)]
 _COMMA2SLASH = [(44, 44, 0, 47)]
 _INV = {}
@@ -540,7 +505,7 @@ def selftest():
     zv = z3.Int("v")
     zc, zo = lbytes.pw_z3(zv, _B64CHAR, (0, 0)), lbytes.pw_z3(zv, _B64VAL, (0, -1))
     for shape in _b64_shapes(zv):
-        f = z3.Implies(z3.And(zv >= 0, zv <= 63), lbytes.pw_z3(shape, _B64VAL, (0, -1)) == zv)
+        f = lbytes.pw_z3(shape, _B64VAL, (0, -1)) == _b64_known(zv)
         sol = z3.Solver()
         sol.add(z3.Not(f))
         assert sol.check() == z3.unsat, f
